@@ -20,6 +20,20 @@ Two kinds of theorems, both about `Model.Compile` code on `Model.LangVM`:
   construct ends with the guard-determined result and with exactly the guard's foreign-call
   log, for ANY untaken operand `b` (no hypothesis on `b` at all: it may panic, call foreign
   functions, be ill-typed).
+* **whole-construct pc traces** (end of the file; machinery in `Proofs/C23Whole.lean`):
+  `match_trace_E/S` — a compiled `match` with any number of arms, taken arm `k` at any position —
+  and `ifS_trace_taken/else/none` — an `if / else if / … / else` chain of any length — state that
+  the VM goes from the construct's entry pc to its exit pc executing EXACTLY an explicit trace
+  `psS ++ psT ++ prologue ++ psB ++ [End, Jump]` resp. the trace of a `ChainRun`, and that every
+  pc of the trace is either a pc of a sub-run that the semantics evaluates (scrutinee, literal
+  patterns / conditions evaluated so far, taken body) or a glue pc that lies outside the block
+  of every untaken arm / branch (and the else block).  The run is described by inductive
+  relations (`ChainRun`, `ValsRun`, `TestsRun`: which conditions / tests miss, which hits) whose
+  sub-runs are `StepsVia` hypotheses; the theorems are layout theorems (no typing assumption) proved
+  by induction over the branch chain / test list / arm list.  `*_of_eval`: with the C22
+  simulation the descriptions exist whenever the evaluator takes that arm / branch
+  (`selectArm = k`, `chainSel = k`).  `trace_function`, `trace_consistent_run`: the trace is what
+  the fuelled function `runTrace` (iterating `step`) computes, and `run` passes through its end.
 
 -/
 namespace AranyaV.Lang
@@ -845,6 +859,271 @@ theorem match_trace_S (scrut : Expr) (arms : List (Pat × List Stmt)) (wp c : Na
 
 
 
+/-! ## whole-construct pc traces, semantic form (with the C22 simulation) -/
+
+/-- **whole `if` statement, semantic form (branch `k`)**: if the evaluator finds the conditions of
+branches `0..k-1` false and that of branch `k` true and the body's statements evaluate normally,
+then a `ChainRun` description with `taken = true`, index `k` exists, and with it the trace and
+region statement of `ifS_trace_taken`. -/
+theorem ifS_taken_of_eval (hP : ProgOk S) (n : Nat) (brs : List (Expr × List Stmt)) (hasElse : Bool) (els : List Stmt)
+    (wp c : Nat) (env : Env) (log : Log) (junk base : List Val) (fr : List Env) (K : List Nat)
+    (k : Nat) (l1 l2 : Log) (cnd : Expr) (ss : List Stmt) (b : List (Nat × Val)) (env' : Env)
+    (hcode : CodeAt S.labels S.m.prog wp (compileStmt S.m.p.structs wp c (.ifS brs hasElse els)).code)
+    (hdefs : DefsOk S.labels (compileStmt S.m.p.structs wp c (.ifS brs hasElse els)).defs)
+    (hsel : chainSel S.m.p n env log brs = some (some k, l1)) (hk : brs[k]? = some (cnd, ss))
+    (hev : evalStmts S.m.p n ([] :: env) l1 ss = .val (b :: env') l2) :
+    let tot := (compileStmt S.m.p.structs wp c (.ifS brs hasElse els)).code.length
+    let lenB := (compileBranches S.m.p.structs wp (c + 1) (Label.anon c) brs).code.length
+    ∃ ps sub gl, ChainRun S (junk ++ base) env fr (base.length :: K) (wp + tot) wp (c + 1) brs log true k ps sub gl
+        (stAt junk base env' fr K (wp + tot) l2) ∧
+      StepsVia S.m (stAt junk base env fr K wp log) ps (stAt junk base env' fr K (wp + tot) l2) ∧
+      ∀ pc ∈ ps, pc ∈ sub ∨
+        ((∀ (i : Nat) (r : Nat × Nat), i ≠ k → (branchRegions S.m.p.structs wp (c + 1) brs)[i]? = some r → ¬ InRange r.1 r.2 pc) ∧
+          ¬ InRange (wp + lenB) (tot - lenB) pc) := by
+  intro tot lenB
+  have hcB : CodeAt S.labels S.m.prog wp (compileBranches S.m.p.structs wp (c + 1) (Label.anon c) brs).code := by
+    simp only [compileStmt, codeAt_append] at hcode; exact hcode.1
+  have hdB : DefsOk S.labels (compileBranches S.m.p.structs wp (c + 1) (Label.anon c) brs).defs := by
+    simp only [compileStmt, defsOk_append] at hdefs; exact hdefs.1.1
+  obtain ⟨ps, sub, gl, hR⟩ := chainRun_of_eval_taken S hP n env junk base fr K (Label.anon c) (wp + tot) brs wp (c + 1)
+    log k l1 cnd ss b env' l2 hcB hdB hsel hk hev
+  obtain ⟨h1, _, h3⟩ := ifS_trace_taken S brs hasElse els wp c (junk ++ base) env fr (base.length :: K) log k ps sub gl _
+    hcode hdefs hR
+  exact ⟨ps, sub, gl, hR, h1, h3⟩
+
+/-- **whole `if` statement, semantic form (else block)**: if the evaluator finds every condition
+false and the else block's statements evaluate normally, a `ChainRun` description with
+`taken = false` and a run `psE` of the else statements exist, and with them the trace and region
+statement of `ifS_trace_else`: no glue pc lies in the body region of any branch. -/
+theorem ifS_else_of_eval (hP : ProgOk S) (n : Nat) (brs : List (Expr × List Stmt)) (els : List Stmt)
+    (wp c : Nat) (env : Env) (log : Log) (junk base : List Val) (fr : List Env) (K : List Nat)
+    (l1 l2 : Log) (b : List (Nat × Val)) (env' : Env)
+    (hcode : CodeAt S.labels S.m.prog wp (compileStmt S.m.p.structs wp c (.ifS brs true els)).code)
+    (hdefs : DefsOk S.labels (compileStmt S.m.p.structs wp c (.ifS brs true els)).defs)
+    (hsel : chainSel S.m.p n env log brs = some (none, l1))
+    (hev : evalStmts S.m.p n ([] :: env) l1 els = .val (b :: env') l2) :
+    let tot := (compileStmt S.m.p.structs wp c (.ifS brs true els)).code.length
+    let B := compileBranches S.m.p.structs wp (c + 1) (Label.anon c) brs
+    let E := compileStmts S.m.p.structs (wp + B.code.length + 1) B.c els
+    ∃ ps sub gl t psE, ChainRun S (junk ++ base) env fr (base.length :: K) (wp + tot) wp (c + 1) brs log false brs.length ps sub gl t ∧
+      StepsVia S.m (stAt junk base env fr K wp log)
+        (ps ++ [wp + B.code.length] ++ psE ++ [wp + B.code.length + 1 + E.code.length])
+        (stAt junk base env' fr K (wp + tot) l2) ∧
+      ∀ pc ∈ ps ++ [wp + B.code.length] ++ psE ++ [wp + B.code.length + 1 + E.code.length], pc ∈ sub ++ psE ∨
+        ∀ (i : Nat) (r : Nat × Nat), (branchRegions S.m.p.structs wp (c + 1) brs)[i]? = some r → ¬ InRange r.1 r.2 pc := by
+  intro tot B E
+  have hcode' := hcode
+  have hdefs' := hdefs
+  simp only [compileStmt, if_true, codeAt_append, codeAt_cons, CodeAt.nil, and_true, res,
+    defsOk_append, defsOk_cons, DefsOk.nil] at hcode' hdefs'
+  obtain ⟨hcB, ⟨_, hcE⟩, _⟩ := hcode'
+  obtain ⟨⟨hdB, hdE⟩, _⟩ := hdefs'
+  obtain ⟨ps, sub, gl, t, hR, ht⟩ := chainRun_of_eval_none S hP n env junk base fr K (Label.anon c) (wp + tot) brs wp (c + 1)
+    log l1 hcB hdB hsel
+  have ihe := (sim_all S hP n).ss els ([] :: env) l1 (wp + B.code.length + 1) B.c junk base fr K (supSs_all els) hcE hdE
+  rw [hev] at ihe
+  simp only [Outcome] at ihe
+  obtain ⟨psE, hE⟩ := StepsVia.of_steps ihe
+  have := ifS_trace_else S brs els wp c (junk ++ base) env fr (base.length :: K) log brs.length ps sub gl t psE
+    (junk ++ base) b env' fr (base.length :: K) l2 hcode hdefs hR (by rw [ht]; exact hE)
+  exact ⟨ps, sub, gl, t, psE, hR, this.1, this.2⟩
+
+/-- **whole `if` statement without else, semantic form (no branch taken)**: if the evaluator finds
+every condition false, the VM goes from entry to exit and no glue pc lies in any branch body. -/
+theorem ifS_none_of_eval (hP : ProgOk S) (n : Nat) (brs : List (Expr × List Stmt)) (els : List Stmt)
+    (wp c : Nat) (env : Env) (log : Log) (junk base : List Val) (fr : List Env) (K : List Nat) (l1 : Log)
+    (hcode : CodeAt S.labels S.m.prog wp (compileStmt S.m.p.structs wp c (.ifS brs false els)).code)
+    (hdefs : DefsOk S.labels (compileStmt S.m.p.structs wp c (.ifS brs false els)).defs)
+    (hsel : chainSel S.m.p n env log brs = some (none, l1)) :
+    ∃ ps sub gl t, ChainRun S (junk ++ base) env fr (base.length :: K)
+        (wp + (compileStmt S.m.p.structs wp c (.ifS brs false els)).code.length) wp (c + 1) brs log false brs.length ps sub gl t ∧
+      StepsVia S.m (stAt junk base env fr K wp log) ps
+        (stAt junk base env fr K (wp + (compileStmt S.m.p.structs wp c (.ifS brs false els)).code.length) l1) ∧
+      ∀ pc ∈ ps, pc ∈ sub ∨
+        ∀ (i : Nat) (r : Nat × Nat), (branchRegions S.m.p.structs wp (c + 1) brs)[i]? = some r → ¬ InRange r.1 r.2 pc := by
+  have hcB : CodeAt S.labels S.m.prog wp (compileBranches S.m.p.structs wp (c + 1) (Label.anon c) brs).code := by
+    simp only [compileStmt, codeAt_append] at hcode; exact hcode.1
+  have hdB : DefsOk S.labels (compileBranches S.m.p.structs wp (c + 1) (Label.anon c) brs).defs := by
+    simp only [compileStmt, defsOk_append] at hdefs; exact hdefs.1.1
+  obtain ⟨ps, sub, gl, t, hR, ht⟩ := chainRun_of_eval_none S hP n env junk base fr K (Label.anon c)
+    (wp + (compileStmt S.m.p.structs wp c (.ifS brs false els)).code.length) brs wp (c + 1) log l1 hcB hdB hsel
+  have := ifS_trace_none S brs els wp c (junk ++ base) env fr (base.length :: K) log brs.length ps sub gl t hcode hdefs hR
+  rw [ht] at this
+  exact ⟨ps, sub, gl, t, hR, this.1, this.2⟩
+
+/-- the pieces of a compiled `match` expression: scrutinee, tests, arms, end label -/
+theorem match_parts_E (scrut : Expr) (arms : List (Pat × Expr)) (wp c : Nat)
+    (hcode : CodeAt S.labels S.m.prog wp (compileExpr S.m.p.structs wp c (.mtch scrut arms)).code)
+    (hdefs : DefsOk S.labels (compileExpr S.m.p.structs wp c (.mtch scrut arms)).defs) :
+    let So := compileExpr S.m.p.structs wp c scrut
+    let wpT := wp + So.code.length
+    let T := compileTestsP S.m.p.structs wpT (So.c + 1) (arms.map (·.1))
+    let wpA := wpT + T.1.code.length
+    CodeAt S.labels S.m.prog wp So.code ∧ DefsOk S.labels So.defs ∧
+    CodeAt S.labels S.m.prog wpT T.1.code ∧ DefsOk S.labels T.1.defs ∧
+    CodeAt S.labels S.m.prog wpA (armsG (compileExpr S.m.p.structs) wpA T.1.c (Label.anon So.c) T.2 arms).code ∧
+    DefsOk S.labels (armsG (compileExpr S.m.p.structs) wpA T.1.c (Label.anon So.c) T.2 arms).defs := by
+  intro So wpT T wpA
+  simp only [compileExpr, compileTestsE_eq, armsE_eq, defsOk_append, defsOk_cons, DefsOk.nil, and_true, codeAt_append] at hcode hdefs
+  obtain ⟨⟨⟨hdS, hdT⟩, hdA⟩, _⟩ := hdefs
+  obtain ⟨⟨hcS, hcT⟩, hcA0⟩ := hcode
+  exact ⟨hcS, hdS, hcT, hdT, codeAt_cast hcA0 (by simp only [wpA, wpT, T, So]; lens), hdA⟩
+
+/-- **whole `match` expression, semantic form**: if the evaluator evaluates the scrutinee to `v`, selects
+arm `k` (`selectArm`), binds it and evaluates its body normally, then the run descriptions
+required by `match_trace_E` exist (`TestsRun` selecting the same `k`, runs of scrutinee and
+body) and with them its trace and region statement: the VM goes from entry to exit and every pc
+is a sub-run pc or a glue pc inside the tests / arm `k`'s own block, outside every other arm's block. -/
+theorem match_taken_of_eval_E (hP : ProgOk S) (n : Nat) (scrut : Expr) (arms : List (Pat × Expr)) (wp c : Nat)
+    (env : Env) (log : Log) (junk base : List Val) (fr : List Env) (K : List Nat)
+    (v : Val) (l1 l2 l3 : Log) (k : Nat) (pat : Pat) (body : Expr) (env' : Env) (r : Val)
+    (hcode : CodeAt S.labels S.m.prog wp (compileExpr S.m.p.structs wp c (.mtch scrut arms)).code)
+    (hdefs : DefsOk S.labels (compileExpr S.m.p.structs wp c (.mtch scrut arms)).defs)
+    (hs : evalExpr S.m.p n env log scrut = .val v l1)
+    (hsel : selectArm S.m.p n env l1 v (arms.map (·.1)) 0 = .val k l2)
+    (hk : arms[k]? = some (pat, body))
+    (hb : bindArm S.m.p ([] :: env) v pat = some env')
+    (hbody : evalExpr S.m.p n env' l2 body = .val r l3) :
+    let So := compileExpr S.m.p.structs wp c scrut
+    let wpT := wp + So.code.length
+    let T := compileTestsP S.m.p.structs wpT (So.c + 1) (arms.map (·.1))
+    let wpA := wpT + T.1.code.length
+    ∃ (wpk ck : Nat) (lk : Label) (psS psT subT glT psB : List Nat),
+      (armStarts (compileExpr S.m.p.structs) wpA T.1.c arms)[k]? = some (wpk, ck) ∧
+      TestsRun S v (junk ++ base) (env :: fr) (base.length :: K) wpT (So.c + 1) (arms.map (·.1)) l1 k lk psT subT glT l2 ∧
+      StepsVia S.m (stAt junk base env fr K wp log)
+        (psS ++ (psT ++ List.range' wpk (1 + (armPre pat).length) ++ psB ++
+          [wpk + 1 + (armPre pat).length + (compileExpr S.m.p.structs (wpk + 1 + (armPre pat).length) ck body).code.length,
+           wpk + 1 + (armPre pat).length + (compileExpr S.m.p.structs (wpk + 1 + (armPre pat).length) ck body).code.length + 1]))
+        (stAt (r :: junk) base env fr K (wp + (compileExpr S.m.p.structs wp c (.mtch scrut arms)).code.length) l3) ∧
+      ∀ pc ∈ (psS ++ (psT ++ List.range' wpk (1 + (armPre pat).length) ++ psB ++
+          [wpk + 1 + (armPre pat).length + (compileExpr S.m.p.structs (wpk + 1 + (armPre pat).length) ck body).code.length,
+           wpk + 1 + (armPre pat).length + (compileExpr S.m.p.structs (wpk + 1 + (armPre pat).length) ck body).code.length + 1])),
+        pc ∈ psS ++ subT ++ psB ∨
+        ((InRange wpT T.1.code.length pc ∨ InRange wpk (armLen (compileExpr S.m.p.structs) wpk ck pat body) pc) ∧
+          ∀ (i wi ci : Nat) (pi : Pat) (bi : Expr), i ≠ k →
+            (armStarts (compileExpr S.m.p.structs) wpA T.1.c arms)[i]? = some (wi, ci) → arms[i]? = some (pi, bi) →
+            ¬ InRange wi (armLen (compileExpr S.m.p.structs) wi ci pi bi) pc) := by
+  intro So wpT T wpA
+  obtain ⟨hcS, hdS, hcT, hdT, hcA, hdA⟩ := match_parts_E S scrut arms wp c hcode hdefs
+  have ihs := (sim_all S hP n).e scrut env log wp c junk base fr K (supE_all scrut) hcS hdS
+  rw [hs] at ihs
+  simp only [Outcome] at ihs
+  obtain ⟨psS, hS⟩ := StepsVia.of_steps ihs
+  obtain ⟨j, lk, psT, subT, glT, hj, hT⟩ := testsRun_of_select hP v env junk base fr K (arms.map (·.1)) n wpT (So.c + 1) 0 l1 k l2
+    hcT hdT hsel
+  have hjk : j = k := by omega
+  subst hjk
+  have hklt : j < arms.length := (List.getElem?_eq_some_iff.mp hk).1
+  obtain ⟨⟨wpk, ck⟩, hst⟩ : ∃ e, (armStarts (compileExpr S.m.p.structs) wpA T.1.c arms)[j]? = some e :=
+    ⟨_, List.getElem?_eq_getElem (by rw [armStarts_length]; exact hklt)⟩
+  have hlab := tests_label hT
+  have hlen : T.2.length = arms.length := by
+    simp only [T]; rw [tests_labels_length, List.length_map]
+  obtain ⟨_, hcArm⟩ := arm_layoutG S (compileExpr S.m.p.structs) (Label.anon So.c) arms T.2 wpA T.1.c j pat body lk wpk ck hk hlab hst hcA hdA
+  have hdBody := arm_defsG S (compileExpr S.m.p.structs) (Label.anon So.c) arms T.2 wpA T.1.c j pat body wpk ck hk (by omega) hst hdA
+  have hcArm' : CodeAt S.labels S.m.prog wpk ((Instruction.Block :: armPre pat) ++
+      (compileExpr S.m.p.structs (wpk + 1 + (armPre pat).length) ck body).code ++ [Instruction.End, jmp (Label.anon So.c)]) := by
+    simpa [List.append_assoc] using hcArm
+  rw [codeAt_append, codeAt_append] at hcArm'
+  have hcBody : CodeAt S.labels S.m.prog (wpk + 1 + (armPre pat).length)
+      (compileExpr S.m.p.structs (wpk + 1 + (armPre pat).length) ck body).code := codeAt_cast hcArm'.1.2 (by lens)
+  obtain ⟨b, rfl⟩ := bindArm_tail hb
+  have ihb := (sim_all S hP n).e body (b :: env) l2 _ ck junk base fr K (supE_all body) hcBody hdBody
+  rw [hbody] at ihb
+  simp only [Outcome] at ihb
+  obtain ⟨psB, hB⟩ := StepsVia.of_steps ihb
+  have := match_trace_E S scrut arms wp c (junk ++ base) env fr (base.length :: K) log l1 l2 l3 v psS j lk psT subT glT
+    pat body wpk ck (b :: env) psB (r :: (junk ++ base)) b env fr (base.length :: K) hcode hdefs hS hT hk hst hb hB
+  exact ⟨wpk, ck, lk, psS, psT, subT, glT, psB, hst, hT, this.1, this.2⟩
+
+/-- the pieces of a compiled `match` statement: scrutinee, tests, arms, end label -/
+theorem match_parts_S (scrut : Expr) (arms : List (Pat × List Stmt)) (wp c : Nat)
+    (hcode : CodeAt S.labels S.m.prog wp (compileStmt S.m.p.structs wp c (.mtch scrut arms)).code)
+    (hdefs : DefsOk S.labels (compileStmt S.m.p.structs wp c (.mtch scrut arms)).defs) :
+    let So := compileExpr S.m.p.structs wp c scrut
+    let wpT := wp + So.code.length
+    let T := compileTestsP S.m.p.structs wpT (So.c + 1) (arms.map (·.1))
+    let wpA := wpT + T.1.code.length
+    CodeAt S.labels S.m.prog wp So.code ∧ DefsOk S.labels So.defs ∧
+    CodeAt S.labels S.m.prog wpT T.1.code ∧ DefsOk S.labels T.1.defs ∧
+    CodeAt S.labels S.m.prog wpA (armsG (compileStmts S.m.p.structs) wpA T.1.c (Label.anon So.c) T.2 arms).code ∧
+    DefsOk S.labels (armsG (compileStmts S.m.p.structs) wpA T.1.c (Label.anon So.c) T.2 arms).defs := by
+  intro So wpT T wpA
+  simp only [compileStmt, compileTestsS_eq, armsS_eq, defsOk_append, defsOk_cons, DefsOk.nil, and_true, codeAt_append] at hcode hdefs
+  obtain ⟨⟨⟨hdS, hdT⟩, hdA⟩, _⟩ := hdefs
+  obtain ⟨⟨hcS, hcT⟩, hcA0⟩ := hcode
+  exact ⟨hcS, hdS, hcT, hdT, codeAt_cast hcA0 (by simp only [wpA, wpT, T, So]; lens), hdA⟩
+
+/-- **whole `match` statement, semantic form**: if the evaluator evaluates the scrutinee to `v`, selects
+arm `k` (`selectArm`), binds it and evaluates its body normally, then the run descriptions
+required by `match_trace_S` exist (`TestsRun` selecting the same `k`, runs of scrutinee and
+body) and with them its trace and region statement: the VM goes from entry to exit and every pc
+is a sub-run pc or a glue pc inside the tests / arm `k`'s own block, outside every other arm's block. -/
+theorem match_taken_of_eval_S (hP : ProgOk S) (n : Nat) (scrut : Expr) (arms : List (Pat × List Stmt)) (wp c : Nat)
+    (env : Env) (log : Log) (junk base : List Val) (fr : List Env) (K : List Nat)
+    (v : Val) (l1 l2 l3 : Log) (k : Nat) (pat : Pat) (body : List Stmt) (env' : Env) (b2 : List (Nat × Val)) (env'' : Env)
+    (hcode : CodeAt S.labels S.m.prog wp (compileStmt S.m.p.structs wp c (.mtch scrut arms)).code)
+    (hdefs : DefsOk S.labels (compileStmt S.m.p.structs wp c (.mtch scrut arms)).defs)
+    (hs : evalExpr S.m.p n env log scrut = .val v l1)
+    (hsel : selectArm S.m.p n env l1 v (arms.map (·.1)) 0 = .val k l2)
+    (hk : arms[k]? = some (pat, body))
+    (hb : bindArm S.m.p ([] :: env) v pat = some env')
+    (hbody : evalStmts S.m.p n env' l2 body = .val (b2 :: env'') l3) :
+    let So := compileExpr S.m.p.structs wp c scrut
+    let wpT := wp + So.code.length
+    let T := compileTestsP S.m.p.structs wpT (So.c + 1) (arms.map (·.1))
+    let wpA := wpT + T.1.code.length
+    ∃ (wpk ck : Nat) (lk : Label) (psS psT subT glT psB : List Nat),
+      (armStarts (compileStmts S.m.p.structs) wpA T.1.c arms)[k]? = some (wpk, ck) ∧
+      TestsRun S v (junk ++ base) (env :: fr) (base.length :: K) wpT (So.c + 1) (arms.map (·.1)) l1 k lk psT subT glT l2 ∧
+      StepsVia S.m (stAt junk base env fr K wp log)
+        (psS ++ (psT ++ List.range' wpk (1 + (armPre pat).length) ++ psB ++
+          [wpk + 1 + (armPre pat).length + (compileStmts S.m.p.structs (wpk + 1 + (armPre pat).length) ck body).code.length,
+           wpk + 1 + (armPre pat).length + (compileStmts S.m.p.structs (wpk + 1 + (armPre pat).length) ck body).code.length + 1]))
+        (stAt junk base env'' fr K (wp + (compileStmt S.m.p.structs wp c (.mtch scrut arms)).code.length) l3) ∧
+      ∀ pc ∈ (psS ++ (psT ++ List.range' wpk (1 + (armPre pat).length) ++ psB ++
+          [wpk + 1 + (armPre pat).length + (compileStmts S.m.p.structs (wpk + 1 + (armPre pat).length) ck body).code.length,
+           wpk + 1 + (armPre pat).length + (compileStmts S.m.p.structs (wpk + 1 + (armPre pat).length) ck body).code.length + 1])),
+        pc ∈ psS ++ subT ++ psB ∨
+        ((InRange wpT T.1.code.length pc ∨ InRange wpk (armLen (compileStmts S.m.p.structs) wpk ck pat body) pc) ∧
+          ∀ (i wi ci : Nat) (pi : Pat) (bi : List Stmt), i ≠ k →
+            (armStarts (compileStmts S.m.p.structs) wpA T.1.c arms)[i]? = some (wi, ci) → arms[i]? = some (pi, bi) →
+            ¬ InRange wi (armLen (compileStmts S.m.p.structs) wi ci pi bi) pc) := by
+  intro So wpT T wpA
+  obtain ⟨hcS, hdS, hcT, hdT, hcA, hdA⟩ := match_parts_S S scrut arms wp c hcode hdefs
+  have ihs := (sim_all S hP n).e scrut env log wp c junk base fr K (supE_all scrut) hcS hdS
+  rw [hs] at ihs
+  simp only [Outcome] at ihs
+  obtain ⟨psS, hS⟩ := StepsVia.of_steps ihs
+  obtain ⟨j, lk, psT, subT, glT, hj, hT⟩ := testsRun_of_select hP v env junk base fr K (arms.map (·.1)) n wpT (So.c + 1) 0 l1 k l2
+    hcT hdT hsel
+  have hjk : j = k := by omega
+  subst hjk
+  have hklt : j < arms.length := (List.getElem?_eq_some_iff.mp hk).1
+  obtain ⟨⟨wpk, ck⟩, hst⟩ : ∃ e, (armStarts (compileStmts S.m.p.structs) wpA T.1.c arms)[j]? = some e :=
+    ⟨_, List.getElem?_eq_getElem (by rw [armStarts_length]; exact hklt)⟩
+  have hlab := tests_label hT
+  have hlen : T.2.length = arms.length := by
+    simp only [T]; rw [tests_labels_length, List.length_map]
+  obtain ⟨_, hcArm⟩ := arm_layoutG S (compileStmts S.m.p.structs) (Label.anon So.c) arms T.2 wpA T.1.c j pat body lk wpk ck hk hlab hst hcA hdA
+  have hdBody := arm_defsG S (compileStmts S.m.p.structs) (Label.anon So.c) arms T.2 wpA T.1.c j pat body wpk ck hk (by omega) hst hdA
+  have hcArm' : CodeAt S.labels S.m.prog wpk ((Instruction.Block :: armPre pat) ++
+      (compileStmts S.m.p.structs (wpk + 1 + (armPre pat).length) ck body).code ++ [Instruction.End, jmp (Label.anon So.c)]) := by
+    simpa [List.append_assoc] using hcArm
+  rw [codeAt_append, codeAt_append] at hcArm'
+  have hcBody : CodeAt S.labels S.m.prog (wpk + 1 + (armPre pat).length)
+      (compileStmts S.m.p.structs (wpk + 1 + (armPre pat).length) ck body).code := codeAt_cast hcArm'.1.2 (by lens)
+  obtain ⟨b, rfl⟩ := bindArm_tail hb
+  have ihb := (sim_all S hP n).ss body (b :: env) l2 _ ck junk base fr K (supSs_all body) hcBody hdBody
+  rw [hbody] at ihb
+  simp only [Outcome] at ihb
+  obtain ⟨psB, hB⟩ := StepsVia.of_steps ihb
+  have := match_trace_S S scrut arms wp c (junk ++ base) env fr (base.length :: K) log l1 l2 l3 v psS j lk psT subT glT
+    pat body wpk ck (b :: env) psB (junk ++ base) b2 env'' fr (base.length :: K) hcode hdefs hS hT hk hst hb hB
+  exact ⟨wpk, ck, lk, psS, psT, subT, glT, psB, hst, hT, this.1, this.2⟩
+
+
 /-! ### the pc trace is a function of `step`, consistent with `run` -/
 
 /-- a `StepsVia` run with trace `ps` is exactly what the fuelled trace function `runTrace` (which
@@ -969,5 +1248,24 @@ example : (runTrace exMS.m 14 ⟨[], [exEnv 2], [], 0, []⟩).1 = [0, 1, 2, 3, 4
 example : ∀ pc ∈ [0, 1, 2, 3, 4, 5, 6, 7, 8, 15, 16, 17, 18, 19], ¬ InRange 10 5 pc ∧ ¬ InRange 20 5 pc := by
   simp only [InRange]; decide
 
+
+
+/-! ### non-vacuity of the semantic forms: the evaluator takes the same arm / the else block -/
+theorem exProgOk (prog : List Instr) (labels : List (Label × Nat)) :
+    ProgOk ⟨⟨prog, exProg, fun _ _ => none⟩, labels⟩ :=
+  ⟨fun f fd h => by simp [exProg, Program.funDef] at h, fun f fd h => by simp [exProg, Program.funDef] at h,
+   fun mi pi vs h => by simp [exProg] at h, fun n d h => by simp [exProg, Program.structDef] at h⟩
+
+example : evalExpr exProg 5 (exEnv 2) [] (.var 10) = .val (.int 2) [] := rfl
+example : selectArm exProg 5 (exEnv 2) [] (.int 2) (exArms.map (·.1)) 0 = .val 1 [] := rfl
+example : evalExpr exProg 5 ([] :: exEnv 2) [] (.int 20) = .val (.int 20) [] := rfl
+/-- `match_taken_of_eval_E` applies to the example `match` (fuel 5, arm index 1) -/
+example := match_taken_of_eval_E exMS (exProgOk _ _) 5 (.var 10) exArms 0 0 (exEnv 2) [] [] [] [] [] (.int 2) [] [] [] 1
+  (.values [.int 2]) (.int 20) ([] :: exEnv 2) (.int 20) exM_code exM_defs rfl rfl rfl rfl rfl
+
+example : chainSel exProg 5 (exEnv 7) [] [exBr 1 100, exBr 2 200, exBr 3 300] = some (none, []) := rfl
+/-- `ifS_else_of_eval` applies to the example chain -/
+example := ifS_else_of_eval exIfS (exProgOk _ _) 5 [exBr 1 100, exBr 2 200, exBr 3 300] [.let_ 11 (.int 400)] 0 0 (exEnv 7) []
+  [] [] [] [] [] [] [(11, .int 400)] (exEnv 7) exIf_code exIf_defs rfl rfl
 
 end AranyaV.Lang
